@@ -523,6 +523,9 @@ def keyval_typ2str(var, val):
     keyval_str2typ: the opposite
     """
     varout = var.strip()
+    if isinstance(val, np.ndarray):
+        # single-line representation that can be parsed again
+        val = val.tolist()
     if isinstance(val, list):
         data = ", ".join([keyval_typ2str(var, it)[1] for it in val])
         valout = "["+data+"]"
